@@ -12,7 +12,8 @@ import (
 //   - X is literally `t.Elem`  and the body never reads `.Dim`  → false
 //     (every element, including inner arrays of a multi-dimensional array, is
 //     treated as a value of the base element type);
-//   - X is something else and the body reads `.Dim`             → true.
+//   - X is something else and the body (or a helper of the same file that the
+//     body calls) reads `.Dim`                                    → true.
 //
 // Anything else is "pattern not found" (the committed default `true` is used
 // and the behavioural correspondence remains the tie).
@@ -51,6 +52,24 @@ func init() {
 				}
 				return true
 			})
+			if !readsDim {
+				// one level of helpers declared in the same file
+				ast.Inspect(fd.Body, func(n ast.Node) bool {
+					if call, ok := n.(*ast.CallExpr); ok {
+						if id, ok := call.Fun.(*ast.Ident); ok && id.Name != "moveOutFiles" {
+							if h := findFunc(f, id.Name); h != nil && h.Body != nil {
+								ast.Inspect(h.Body, func(m ast.Node) bool {
+									if s, ok := m.(*ast.SelectorExpr); ok && s.Sel.Name == "Dim" {
+										readsDim = true
+									}
+									return true
+								})
+							}
+						}
+					}
+					return true
+				})
+			}
 			if ncalls != 1 || recv == nil {
 				return "", nil, fmt.Errorf("moveOutArrayDir: expected one moveOutFiles(w, &p, X.IsFile(), …) call, found %d", ncalls)
 			}
